@@ -28,6 +28,8 @@ import scionnet_common as sn
 
 def run(c):
     binp = c.cargo_build("vh-pocket", bin="scionnet")
+    if c.replay and sn.replay_one(c, binp, "C01", "c01", False):
+        return
     thorough = c.tier == "thorough"
     c.assumptions += [
         "AES-CMAC (aes/cmac crates) is trusted; which accumulator value authenticates which hop is the specification's",
